@@ -1,7 +1,8 @@
 (* VmRunCorr.v — correspondence and C15 monitor for Vm.Run on arbitrary (also malformed) bytecode.
    The real vm.NewVm(...).Run is called on a prepared state (flags, position, input) with a
    resource that answers a code fetch with HALT for _catch and with empty code otherwise; the case
-   records what came back. *)
+   records what came back.  The resource also has one entry function ("lds"), and a case may name code
+   that an EARLIER Run of the same machine executed (vr_pre): LOAD of an already cached symbol. *)
 From Vise Require Import Bytes Errors Consts EngConsts Codec CacheModel StateModel NavModel RenderModel VmModel EngineModel CorrBase EngineCorr.
 Local Open Scope N_scope.
 
@@ -10,6 +11,7 @@ Record vrcase := mkVr {
   vr_input : option bytes;
   vr_path : list bytes;
   vr_code : bytes;
+  vr_pre : bytes;              (* code of an EARLIER Run of the same Vm/state/cache (its outcome is not judged); [] = none *)
   vr_stat : ostat;             (* observed: nil / error class / panic *)
   vr_rest : bytes;             (* observed: remaining code returned by Run *)
   vr_oflags : bytes;           (* observed: State.Flags afterwards *)
@@ -29,11 +31,27 @@ Definition vr_init (c : vrcase) : vmst :=
   let st2 := set_input_raw (set_path_idx st1 (vr_path c) 0) (vr_input c) in
   mkVm st2 (push_n (List.length (vr_path c)) (new_cache 0)) (new_vm_page 0 []) [] [] false.
 
-Definition vr_model (c : vrcase) : vmst * bytes * stat := run 3000 empty_rsrc [] None (vr_code c) (vr_init c).
+(* the driver's resource: empty_rsrc plus ONE entry function, "lds", answering "x" — so that a LOAD can
+   succeed and a later LOAD of the same symbol finds it cached (Vm.runLoad's "skip already loaded symbol") *)
+Definition lds_sym : bytes := s2b "lds".
+Definition vr_rsrc : rsrc :=
+  mkRsrc (rs_code empty_rsrc) (rs_tpl empty_rsrc) (rs_menu empty_rsrc)
+         (fun sym => if bytes_eqb sym lds_sym then Some [mkFres (s2b "x") false 0 [] [] false] else None)
+         (rs_nofunc empty_rsrc) false.
+
+(* the machine the judged Run starts from: after the earlier Run, if there is one (cache, flags and
+   position carried over; a fresh context, so no context language) *)
+Definition vr_start (c : vrcase) : vmst * bool :=
+  match vr_pre c with
+  | [] => (vr_init c, false)
+  | pre => let '(v, _, s) := run 3000 vr_rsrc [] None pre (vr_init c) in (v, is_fuel s)
+  end.
+
+Definition vr_model (c : vrcase) : vmst * bytes * stat := run 3000 vr_rsrc [] None (vr_code c) (fst (vr_start c)).
 
 Definition vr_corr_ok (c : vrcase) : bool :=
   let '(v, b, s) := vr_model c in
-  if is_fuel s then true else
+  if is_fuel s || snd (vr_start c) then true else
   ostat_eqb (ostat_of s) (vr_stat c)
   && (match vr_stat c with
       | OSPanic => true
@@ -90,8 +108,8 @@ Definition vr_c15_gen (lf : bool) (c : vrcase) : bool :=
     match vr_model c with (_, _, SPanic n) => 20 <=? n | _ => false end
   | OSOk =>
     if is_suffix_b (vr_rest c) (vr_code c)
-       && negb (existsb (fun f => f =? FLAG_TERMINATE) (vr_flags c))
-       && (lf || negb (existsb (fun f => f =? FLAG_LOADFAIL) (vr_flags c)))
+       && negb (getf (v_st (fst (vr_start c))) FLAG_TERMINATE)
+       && (lf || negb (getf (v_st (fst (vr_start c))) FLAG_LOADFAIL))
     then consumed_ok (S (List.length (vr_code c))) (vr_code c) (len (vr_rest c)) else true
   | _ => true
   end.
